@@ -37,7 +37,22 @@ type Case struct {
 var (
 	minCmp = func(a, b Item) int { return cmp.Compare(a.P, b.P) }
 	maxCmp = func(a, b Item) int { return cmp.Compare(b.P, a.P) }
+	// the same two orders, returning magnitudes instead of -1/0/+1
+	minMag = func(a, b Item) int { return 5 * (a.P - b.P) }
+	maxMag = func(a, b Item) int { return 5 * (b.P - a.P) }
 )
+
+func comparator(id string) func(a, b Item) int {
+	switch id {
+	case "max":
+		return maxCmp
+	case "minmag":
+		return minMag
+	case "maxmag":
+		return maxMag
+	}
+	return minCmp
+}
 
 type heap struct {
 	push   func(...Item)
@@ -52,10 +67,7 @@ type heap struct {
 }
 
 func build(c Case) heap {
-	f := minCmp
-	if c.Cmp == "max" {
-		f = maxCmp
-	}
+	f := comparator(c.Cmp)
 	if c.Kind == "binaryheap" {
 		h := binaryheap.NewWith(f)
 		return heap{h.Push, h.Pop, h.Peek, h.Clear, h.Size, h.Empty, h.Values, func() []Item {
@@ -83,10 +95,7 @@ func build(c Case) heap {
 func check(c Case) (pbt.Info, error) {
 	var info pbt.Info
 	h := build(c)
-	f := minCmp
-	if c.Cmp == "max" {
-		f = maxCmp
-	}
+	f := comparator(c.Cmp)
 	model := map[Item]int{} // multiset of exact elements
 	total := 0
 	var ntPopPushPop, ntBulkOnNonEmpty, ntLoadUnorderedPop, ties bool
@@ -137,6 +146,9 @@ func check(c Case) (pbt.Info, error) {
 			if m, bad := precededBy(pk); bad {
 				return fmt.Errorf("step %d %s: Peek() returned %v although contained %v precedes it", step, what, pk, m)
 			}
+		}
+		if total > 48 && step%8 != 0 && what != "after drain" {
+			return nil // large heaps: the O(n^2) listing is checked every 8th step
 		}
 		for ni, xs := range [][]Item{h.values(), h.iter()} {
 			name := []string{"Values()", "iteration"}[ni]
@@ -271,7 +283,7 @@ func check(c Case) (pbt.Info, error) {
 
 func gen(kind string) func(t *rapid.T) Case {
 	return func(t *rapid.T) Case {
-		c := Case{Kind: kind, Cmp: []string{"min", "max"}[rapid.IntRange(0, 1).Draw(t, "cmp")]}
+		c := Case{Kind: kind, Cmp: []string{"min", "max", "minmag", "maxmag"}[rapid.IntRange(0, 3).Draw(t, "cmp")]}
 		hiP := []int{3, 20, 1000}[rapid.IntRange(0, 2).Draw(t, "prange")]
 		id := 0
 		items := func(k int) []Item {
@@ -305,9 +317,51 @@ func gen(kind string) func(t *rapid.T) Case {
 	}
 }
 
+// genLarge: heaps of up to a few hundred elements (5th-8th level, the backing
+// array list's growth and shrink thresholds), bulk pushes of up to 70 values
+// incl. exact powers of two, FromJSON of up to 90 elements, long pop runs.
+func genLarge(kind string) func(t *rapid.T) Case {
+	return func(t *rapid.T) Case {
+		c := Case{Kind: kind, Cmp: []string{"min", "max", "minmag", "maxmag"}[rapid.IntRange(0, 3).Draw(t, "cmp")]}
+		hiP := []int{2, 30, 1000}[rapid.IntRange(0, 2).Draw(t, "prange")]
+		id := 0
+		items := func(k int) []Item {
+			out := make([]Item, k)
+			for i := range out {
+				id++
+				out[i] = Item{P: rapid.IntRange(0, hiP).Draw(t, "p"), ID: id}
+			}
+			return out
+		}
+		phases := rapid.IntRange(1, 7).Draw(t, "phases")
+		for p := 0; p < phases; p++ {
+			n := rapid.IntRange(1, 90).Draw(t, "len")
+			switch dom.Weighted(t, "phase", 5, 4, 4, 2, 1) {
+			case 0:
+				for i := 0; i < n; i++ {
+					c.Ops = append(c.Ops, Op{O: "push", Is: items(1)})
+				}
+			case 1:
+				k := []int{16, 18, 31, 32, 33, 64, 70}[rapid.IntRange(0, 6).Draw(t, "k")]
+				c.Ops = append(c.Ops, Op{O: "push", Is: items(k)})
+			case 2:
+				for i := 0; i < n; i++ {
+					c.Ops = append(c.Ops, Op{O: "pop"})
+				}
+			case 3:
+				c.Ops = append(c.Ops, Op{O: "load", Is: items(n)})
+			default:
+				c.Ops = append(c.Ops, Op{O: "clear"})
+			}
+		}
+		return c
+	}
+}
+
 func TestGenerated(t *testing.T) {
 	for _, kind := range []string{"binaryheap", "priorityqueue"} {
 		pbt.Run(t, pbt.Target[Case]{Name: kind, Checks: 30000, Gen: gen(kind), Check: check})
+		pbt.Run(t, pbt.Target[Case]{Name: kind + "/large", Checks: 150, Gen: genLarge(kind), Check: check})
 	}
 }
 
